@@ -50,3 +50,14 @@ reg("C10",
     "Each case is compiled by real rustc against the repository's proc-macro and executed; for every value of the per-field domains and each of 14 formatter-flag combinations the string must equal what #[derive(Debug)] prints for the twin with the ignored fields deleted (or the transparent field alone). Cases with two transparent fields in one struct/variant must be rejected by the expander. Exhaustive within the bound.",
     "Bound: quick Sh(2,2) with <=2 marked fields, thorough Sh(3,3) with <=3 marked fields (<=6 fields in 3-variant enums); field types i32 / &str / f64 / nested struct; transparent+ignore on one field is only explored where unambiguous (rejection).",
     "DESIGN.md 5/C10")
+
+reg("C14",
+    "bounded exhaustive enumeration of items with interleaved foreign / helper-named / derive_ex attributes at type, variant and field placement x derived lists x visibility x generics, plus a family of failing inputs, expanded by the real expander and compared token-for-token with the expected re-emitted item",
+    "Every terminal state is expanded by the repository's own attribute-macro entry function; the first output item must equal the input minus exactly the attributes the documentation assigns to the derived traits (strict, also when a derivation then fails), and on inputs whose derive list cannot be understood or whose item kind is unsupported the item must still be present with its foreign content and structure intact next to a compile_error!. Exhaustive within the bound.",
+    "Bound: quick <=2 deviations (attributes placed + non-default visibility/generics) over a 21-attribute pool, sequences up to length 3, plus all interleavings of <=3 attributes of a 6-letter pool at one placement; thorough <=3 deviations and <=4-attribute interleavings; 44 failing / unsupported / impl inputs. Behavioural rustc binding of the re-emitted item is not built (channel E only).",
+    "DESIGN.md 5/C14")
+reg("C15",
+    "exhaustive enumeration, per seed item (generators + test-suite/documentation corpus), of the other entry point, all splits of the trait list (breadth-first over split operations with a seen-set), all sub-lists containing a trait whose helper attributes all affect it, permutations, and shared-bound splits; token equality of every trait's impls with the merged baseline on the real expander",
+    "Every variant is expanded by the repository's own entry functions and each trait's generated items are compared token-for-token with the merged attribute-macro baseline; impls must also appear in listing order. Exhaustive over the seed set and relation instances.",
+    "Bound: ~900 seeds (quick) incl. every derive_ex item of the test-suite and docs and all pairs of the 9 basic traits on 4 plain items; lists up to 9 traits (all compositions), permutations capped at 24 (quick) / 120 (thorough) per seed.",
+    "DESIGN.md 5/C15")
